@@ -194,7 +194,7 @@ def comprehensions(cx, b, d):
     out = []
     d = simplify(d)
     # ---- chain forms: collect(chain), or extend(vec, chain) somewhere on the spine
-    m = match('(call Iterator::collect $c)', d)
+    m = match('(call Iterator::collect $c)', d) or match('(call Itertools::collect_vec $c)', d)
     if m is not None:
         rs = _chain(cx.facts, m['c'])
         for r in rs or ():
@@ -244,3 +244,78 @@ def comprehensions(cx, b, d):
 
 def has_cond(c, pat, pol=True, env=None):
     return any(p == pol and match(pat, a, env) is not None for a, p in c['conds'])
+
+
+def reduction(cx, b, d):
+    """d: a scalar DAG that folds a sequence into one value, whichever way the source spells it ->
+        {'op': 'sum' | 'max' | 'min' | 'max_by' | 'min_by', 'init': DAG or None, 'cmp': closure or None, 'src': S, 'elem': E, 'conds': [...], 'form': ..}
+    with src / elem / conds in the canonical comprehension form (see _chain), or None.
+    Understood: `acc = init; for x in S { acc = acc + e(x) }` (also `+=`, `acc.max(e)`), `S.iter()..map(e).sum()`, `..max_by(cmp)` / `..min_by(cmp)` over a
+    chain or over a collected chain."""
+    d = simplify(d)
+    # ---- chain forms
+    for pat, op in (('(call Iterator::sum $c)', 'sum'), ('(call Iterator::max_by $c $cmp)', 'max_by'), ('(call Iterator::min_by $c $cmp)', 'min_by')):
+        m = match(pat, d)
+        if m is None:
+            continue
+        c = m['c']
+        mc = match('(call Iterator::collect $c2)', c) or match('(call Itertools::collect_vec $c2)', c)
+        if mc is not None:
+            c = mc['c2']
+        rs = _chain(cx.facts, c)
+        if not rs or len(rs) != 1:
+            return None
+        S, e, conds = rs[0]
+        return {'op': op, 'init': ('const', 0) if op == 'sum' else None, 'cmp': m.get('cmp'), 'src': S, 'elem': e, 'conds': conds, 'form': 'chain'}
+    # ---- fold(init, |acc, x| acc (+) e(x)) over a chain
+    m = match('(call *::fold $c $init $f)', d)
+    if m is not None and m['f'][0] == 'closure':
+        rs = _chain(cx.facts, m['c'])
+        if not rs or len(rs) != 1:
+            return None
+        S, e, conds = rs[0]
+        ACC = ('acc',)
+        r = IN.closure_apply(cx.facts, m['f'], (ACC, e))
+        if r is None:
+            return None
+        r = canon(simplify(r))
+        op = el = None
+        if r[0] == 'add' and len(r) == 3 and ACC in r[1:]:
+            op, el = 'sum', (r[2] if r[1] == ACC else r[1])
+        elif r[0] == 'call' and r[1] in ('f64::max', 'f64::min') and len(r) == 4 and ACC in r[2:]:
+            op, el = r[1].split('::')[1], (r[3] if r[2] == ACC else r[2])
+        if op is None or any(x == ACC for x in subterms(el)):
+            return None
+        return {'op': op, 'init': m['init'], 'cmp': None, 'src': S, 'elem': canon(el), 'conds': conds, 'form': 'fold'}
+    # ---- loop forms: (phi init (loop l@h)) whose carried value is acc (+) e
+    if d[0] == 'phi':
+        lp = [x for x in d[1:] if x[0] == 'loop']
+        inits = [x for x in d[1:] if x[0] != 'loop']
+        if len(lp) == 1 and len(inits) == 1:
+            car = simplify(b.dag().carried(lp[0][1], lp[0][2]))
+            ACC = '(anyphi (loop))'
+            for pat, op in ((f'(add {ACC} $e)', 'sum'), (f'(call f64::max {ACC} $e)', 'max'), (f'(call f64::max $e {ACC})', 'max'),
+                            (f'(call f64::min {ACC} $e)', 'min'), (f'(call f64::min $e {ACC})', 'min')):
+                m = match(pat, car)
+                if m is None or find('(loop)', m['e']) is not None and any(x[0] == 'loop' and x[1] == lp[0][1] for x in subterms(m['e'])):
+                    continue
+                e = canon(m['e'])
+                # the accumulating assignment must be on every cycle of its loop: no conditions of its own
+                conds = []
+                h = lp[0][2]
+                blocks = b.loop_blocks(h) if hasattr(b, 'loop_blocks') else set()
+                for (dbb, dpos, kind, pay) in b.defs().get(lp[0][1], []):
+                    if dbb in blocks:
+                        for a, p in cx.guards(b, dbb):
+                            if a[0] == 'is' and isinstance(a[1], tuple) and a[1] and a[1][0] == 'call' and str(a[1][1]).endswith('::next'):
+                                continue
+                            ca = canon(a)
+                            if find('(itervar _)', ca) is not None:
+                                conds.append((ca, p))
+                src = None
+                iv = find('(itervar _)', e)
+                if iv is not None:
+                    rg = iv[0][1]
+                    src = rg[2][1] if (rg[0] == 'range' and isinstance(rg[2], tuple) and rg[2][0] == 'len') else rg
+                return {'op': op, 'init': inits[0], 'cmp': None, 'src': src, 'elem': e, 'conds': conds, 'form': 'loop'}
+    return None
